@@ -40,6 +40,12 @@ CHECKS = {
    text="RIB contents are reached through Modify with payloads populating every fluent-settable field; then the whole request matrix {3 NIs, all, unknown} x {ALL and the five tables} is issued. Each response set must equal the model's installed entries of that scope with proto-equal payloads and correct NI tags; Get(ALL) must be the disjoint union of the per-table Gets and Get(all NIs) the union of per-NI Gets; empty scopes give empty OK streams; a RIB rebuilt with rib.FromGetResponses must equal the source contents.",
    note="Trusted: reference model for which keys are installed; canonicalisation of keyed lists; in-process Get stream (no gRPC codec).",
    design="DESIGN.md §4 C07"),
+ "C15": dict(
+   technique="property-based round-trip testing: reconciler output applied to the live target RIB with reference checking on, then contents compared with the intended RIB",
+   level="exploration",
+   text="Pairs of reference-closed RIBs (shared generated base history plus an independent extension each; intended instances a subset of the target's; boundary id bases) are reconciled; the emitted operations are applied to the real target in the documented dependency order and each must be acknowledged by its own call; afterwards both RIBs' contents must be equal in every network instance, a second reconcile must be empty and the ids must be exactly base+1..base+n.",
+   note="Trusted: rib.RIB semantics themselves (decided by C01-C03) since the oracle applies the operations to a real RIB; obs conversion.",
+   design="DESIGN.md §4 C15"),
 }
 NOT_YET = {}
 
